@@ -38,7 +38,7 @@ type c11sys struct {
 	window  time.Duration // declared window
 	unit    string
 	direct  bool
-	do      func(remote string, hdr [][2]string) (int, bool)
+	do      func(remote string, hdr [][2]string, second bool) (int, bool) // second: the other route with the same declaration
 	trust   bool
 	trusted map[string]bool
 	decl    string
@@ -85,6 +85,14 @@ func c11build(s *sim.Sim, p *sim.Params) (*c11sys, func() *c11sys) {
 		y.trust = s.Choose(sim.SWork, 2) == 1
 		if y.trust && s.Choose(sim.SWork, 2) == 1 {
 			y.trusted = map[string]bool{"10.9.9.9": true}
+			// entries that are not plain addresses (a range, a host name, an address with a port)
+			// name no client of this workload under any reading: the list stays "trust only these"
+			switch s.Choose(sim.SWork, 4) {
+			case 1:
+				y.trusted = map[string]bool{"192.0.2.0/24": true}
+			case 2:
+				y.trusted = map[string]bool{"proxy.internal.example": true, "192.0.2.7:8080": true}
+			}
 		}
 		mk := func() *c11sys {
 			z := *y
@@ -93,11 +101,17 @@ func c11build(s *sim.Sim, p *sim.Params) (*c11sys, func() *c11sys) {
 				list = append(list, k)
 			}
 			server.SetTrustedProxies(list)
-			mw := server.RateLimitMiddleware(server.RateLimiterConfig{RequestsPerMinute: y.n, BurstSize: y.n, TrustProxy: y.trust})
-			h := mw(func(ctx *server.Context) error {
+			body := func(ctx *server.Context) error {
 				return server.SendJSON(ctx, http.StatusOK, map[string]interface{}{"marker": c11Marker})
-			})
-			z.do = func(remote string, hdr [][2]string) (int, bool) {
+			}
+			lcfg := server.RateLimiterConfig{RequestsPerMinute: y.n, BurstSize: y.n, TrustProxy: y.trust}
+			h1 := server.RateLimitMiddleware(lcfg)(body)
+			h2 := server.RateLimitMiddleware(lcfg)(body) // a second route with the same limit has a budget of its own
+			z.do = func(remote string, hdr [][2]string, second bool) (int, bool) {
+				h := h1
+				if second {
+					h = h2
+				}
 				req := httptest.NewRequest("GET", "/limited", nil)
 				req.RemoteAddr = remote
 				for _, kv := range hdr {
@@ -129,7 +143,7 @@ func c11build(s *sim.Sim, p *sim.Params) (*c11sys, func() *c11sys) {
 	// the declaration is spelled the ways the language accepts: bare or quoted, any letter case,
 	// blanks around the unit — the declared limit is the same in all of them
 	mkSrc := func(decl string) string {
-		return fmt.Sprintf("@ GET /limited {\n  + ratelimit(%s)\n  > {marker: \"%s\"}\n}\n\n@ GET /free {\n  > {marker: \"free\"}\n}\n", decl, c11Marker)
+		return fmt.Sprintf("@ GET /limited {\n  + ratelimit(%s)\n  > {marker: \"%s\"}\n}\n\n@ GET /free {\n  > {marker: \"free\"}\n}\n\n@ POST /limited2 {\n  + ratelimit(%s)\n  > {marker: \"%s\"}\n}\n", decl, c11Marker, decl, c11Marker)
 	}
 	capUnit := strings.ToUpper(u.name[:1]) + u.name[1:]
 	decl := fmt.Sprintf("%d/%s", y.n, u.name)
@@ -161,8 +175,12 @@ func c11build(s *sim.Sim, p *sim.Params) (*c11sys, func() *c11sys) {
 		if err != nil {
 			s.InfraFail("C11: cannot build server: " + err.Error())
 		}
-		z.do = func(remote string, hdr [][2]string) (int, bool) {
-			r := sv.do(simReq{path: "/limited", remote: remote, headers: hdr})
+		z.do = func(remote string, hdr [][2]string, second bool) (int, bool) {
+			rq := simReq{path: "/limited", remote: remote, headers: hdr}
+			if second {
+				rq = simReq{method: "POST", path: "/limited2", remote: remote, headers: hdr}
+			}
+			r := sv.do(rq)
 			return r.status, strings.Contains(r.body, c11Marker)
 		}
 		return &z
@@ -301,6 +319,7 @@ func c11Run(s *sim.Sim, p *sim.Params) {
 		plan    []c11arrival
 		conform bool
 		k       int
+		twoRoutes bool
 	}
 	plans := make([]clientPlan, nclients)
 	v6 := s.Choose(sim.SWork, 4) == 0 // IPv6 peers whose addresses share their leading groups
@@ -313,6 +332,7 @@ func c11Run(s *sim.Sim, p *sim.Params) {
 			plans[i].host = "10.9.9.9" // arrives through the trusted proxy
 		}
 		plans[i].forge = s.Choose(sim.SWork, 4)
+		plans[i].twoRoutes = s.Choose(sim.SWork, 3) == 0
 		plans[i].conform = s.Choose(sim.SWork, 3) == 0
 		plans[i].plan = c11plan(s, y0, plans[i].conform, budget/nclients+1)
 	}
@@ -333,8 +353,15 @@ func c11Run(s *sim.Sim, p *sim.Params) {
 			hdr = append(hdr, [2]string{"X-Real-IP", fmt.Sprintf("192.168.8.%d", ci*3+k%3)})
 		}
 		at := s.Now()
-		st, ran := y.do(remote, hdr)
-		*out = append(*out, c11rec{client: ci, ident: y.identity(remote, hdr), at: at, status: st, ranBody: ran, conform: conform})
+		// a third of a client's requests go to the second route, which declares the same limit:
+		// each route has its own budget per client, so the oracles judge (client, route) pairs
+		second := pl.twoRoutes && (k+ci)%3 == 0
+		st, ran := y.do(remote, hdr, second)
+		id := y.identity(remote, hdr)
+		if second {
+			id += " on the second route"
+		}
+		*out = append(*out, c11rec{client: ci, ident: id, at: at, status: st, ranBody: ran, conform: conform})
 	}
 	runClient := func(y *c11sys, ci int, pl *clientPlan, out *[]c11rec) func() {
 		return func() {
@@ -365,7 +392,7 @@ func c11Run(s *sim.Sim, p *sim.Params) {
 	// first, so the workload runs against a table at capacity and its eviction path
 	pressure := func(y *c11sys) {
 		for k := 0; k < 10050; k++ {
-			st, _ := y.do(fmt.Sprintf("10.%d.%d.%d:5000", 100+(k>>16), (k>>8)&255, k&255), nil)
+			st, _ := y.do(fmt.Sprintf("10.%d.%d.%d:5000", 100+(k>>16), (k>>8)&255, k&255), nil, false)
 			if st != 200 {
 				s.Fail("oracle", "false-rejection:unit="+y.unit, fmt.Sprintf("the first request ever of client #%d (of many one-shot clients) was answered %d", k, st))
 			}
